@@ -76,6 +76,10 @@ pub struct Desc {
     pub assertions: Vec<Assert>,
     pub aux: Option<AuxDesc>,
     pub meta: Vec<u8>,
+    /// LDE coset the computation asks for through `Air::domain_offset()` (0 = default, 1 = generator^-1,
+    /// 2 = generator^3); part of the statement, so prover and verifier agree on it
+    #[serde(default)]
+    pub offset_sel: u8,
 }
 
 impl Desc {
@@ -123,6 +127,9 @@ impl Desc {
                     v.extend([*k as u128, *c as u128]);
                 }
             },
+        }
+        if self.offset_sel != 0 {
+            v.extend([0xD0, self.offset_sel as u128]);
         }
         v
     }
